@@ -4,7 +4,7 @@ from __future__ import annotations
 
 import random
 
-from harness.common import Ctx, byte_obligation, io_cases, mi, read_scenario
+from harness.common import Ctx, byte_obligation, fault_finish, fault_mode, io_cases, mi, read_scenario
 from oracles import vmdk as spec
 from oracles.mem import Shifted, SymMem, SymOpaque
 from symx import core, files, layouts, loader, replay, stubs
@@ -50,10 +50,13 @@ def read_task(prop, cfg, tier, seed):
     has_parent = bool(cfg.get("has_parent"))
     core.set_width(cfg.get("W", 80 if kind in ("sesparse", "kdmv_footer") else 72))
     zlog = []
-    zl = stubs.ZlibStub(out_len=lambda key, mx: gs * S, log=zlog)
+    zl = stubs.ZlibStub(out_len=(lambda key, mx: (mx if mx else (1 << 40))) if cfg.get("fault") else (lambda key, mx: gs * S), log=zlog, lenient=bool(cfg.get("fault")))
     m = load(zl)
     ctx = Ctx(prop, f"vmdk.{kind}", cfg, tier, seed, engine_kw=dict(max_decisions=cfg.get("max_decisions", 1200)))
     rng = random.Random(seed)
+    fault = bool(cfg.get("fault"))
+    if fault:
+        fault_mode(ctx)
     core_sz = replay.deflate_core_size(gs * S) + 8
     maxcount = cfg.get("max_count", N * gs)
 
@@ -82,7 +85,8 @@ def read_task(prop, cfg, tier, seed):
                 gd_off = E.assume_range(files.word_at("img", h + 56, 8, "le"), 1, 1 << 50)
             cap = E.assume_range(files.word_at("img", h + 12, 8, "le"), 1, 1 << 50)
             gd_n = (cap + gs * ngte - 1) // (gs * ngte)
-            E.assume(gd_off * S + 4 * gd_n <= fsize)
+            if not fault:
+                E.assume(gd_off * S + 4 * gd_n <= fsize)
             vars_.update(gd_off=gd_off)
 
             def gbyte(g, mm, pp, fs):
@@ -126,7 +130,7 @@ def read_task(prop, cfg, tier, seed):
             E.assume(sector + count <= cap)
         # everything the specification refers to for the touched grains lies inside the file
         g0 = sector // gs
-        for k in range((maxcount + gs - 1) // gs + 1):
+        for k in range(0 if fault else (maxcount + gs - 1) // gs + 1):
             gr = g0 + k
             if kind in ("kdmv", "kdmv_footer", "cowd"):
                 gt = mem.word(gd_off * S + 4 * (gr // ngte), 4, "le")
@@ -169,6 +173,13 @@ def read_task(prop, cfg, tier, seed):
             plains = {}
             for (fname, off, ln, wbits, mx) in zlog:
                 o, l = mi(model, off), mi(model, ln)
+                if fault:
+                    # a decompression bomb: 64 allocation units of zeros in a stream of exactly the stored length
+                    plain, stream = replay.deflate_exact(o, 0, l, wbits, plain=bytes(64 * (gs * S)))
+                    if fname in d["files"]:
+                        d["files"][fname]["patches"].append([o, stream.hex()])
+                    d["_fault_expect"] = dict(max_inflate=gs * S)
+                    continue
                 plain, stream = replay.deflate_exact(o, gs * S, l, wbits)
                 d["files"][fname]["patches"].append([o, stream.hex()])
                 plains[o] = plain
@@ -211,6 +222,8 @@ def read_task(prop, cfg, tier, seed):
                 if f2 == fname and kd == "W":
                     a = core.SymInt(a2, ai2, 0, 1 << 70)
                     sc.extra.append(core.sym_or(a + n2 <= off, a >= off + ln))
+        if fault:
+            return fault_finish(ctx, E, res, count * S, gs * S, zlog, gs * S)
         sv = gbyte(sector * S + j, mem, par, fsize)
         bad = byte_obligation(res, j, explen, sv, extra=[core.sym_not(size_ok)], maxlen=count * S if cfg.get("tail") else None)
         if cfg.get("io"):
